@@ -2,8 +2,8 @@
 # soundness sweep on the unchanged tree: every registered check under several seeds; prints one line per run
 cd "$(dirname "$0")/.."
 for sd in ${SEEDS:-1 2 3}; do
-  for p in $(python3 -c "import json;print(' '.join(c['property_id'] for c in json.load(open('MANIFEST.json'))['checks']))"); do
-    out=$(VERIF_SEED=$sd nice -n 10 ./check $p --tier ${TIER:-quick} 2>&1); rc=$?
+  for p in ${PROPS:-$(python3 -c "import json;print(' '.join(c['property_id'] for c in json.load(open('MANIFEST.json'))['checks']))")}; do
+    out=$(VERIF_SEED=$sd nice -n ${NICE:-10} ./check $p --tier ${TIER:-quick} 2>&1); rc=$?
     echo "seed=$sd $p rc=$rc $(echo "$out" | grep -E 'VIOLATION|MACHINERY' | head -3 | cut -c1-300)"
   done
 done
